@@ -183,7 +183,7 @@ static void mon_c06(World& w) {
 static void mon_c08(World& w) {
     const std::string sn = w.sc.family(); auto& wire = w.broker->wire;
     // every exchange has completed: every identifier must be available again (else pid_overrun comes before 65535 are in use)
-    if (w.free_ids_at_quiet >= 0 && w.free_ids_at_quiet != 65535) w.vio("C08:id-not-released:" + sn, std::to_string(65535 - w.free_ids_at_quiet) + " packet identifier(s) still reserved although every exchange has completed");
+    if (w.free_ids_at_quiet >= 0 && w.free_ids_at_quiet != 65535) w.vio("C08:id-not-released:" + sn, w.free_ids_at_quiet < 65535 ? std::to_string(65535 - w.free_ids_at_quiet) + " packet identifier(s) still reserved although every exchange has completed" : "the allocator holds " + std::to_string(w.free_ids_at_quiet) + " free identifiers out of 65535 (one was released twice)");
     // which op does a client packet belong to
     auto owner = [&](const ref::Packet& p) -> int { for (auto& o : w.ops) {
             if (o.kind == Action::PUB && p.type == ref::PUBLISH && p.payload == o.payload) return o.id;
@@ -620,6 +620,18 @@ void run_monitors(World& w) {
 }
 
 // ------------------------------------------------------------------ scenario sets
+// sixteen requests that a broker with restrictive_caps() makes the client reject locally (C15/C16), with the documented error
+static ref::Props restrictive_caps() { return {ref::pnum(0x27, 60), ref::pnum(0x24, 1), ref::pnum(0x25, 0), ref::pnum(0x22, 2), ref::pnum(0x28, 0), ref::pnum(0x29, 0), ref::pnum(0x2A, 0)}; }
+static std::vector<Action> rejected_requests(int tag) {
+    std::vector<Action> rej;
+    auto R_ = [&](Action a, int ec) { a.tag = tag++; if (a.k == Action::PUB) a.payload = "payload-" + std::to_string(a.tag); a.expect_reject = true; a.expect_ec = ec; rej.push_back(a); };
+    { Action a = PUB(0, 0); a.topic = "bad/#"; R_(a, 104); } { Action a = PUB(1, 0); a.topic = ""; R_(a, 104); } R_(PUB(2, 0), 105); R_(PUB(0, 0, true), 106); R_(PUB(0, 0, false, {ref::pnum(0x23, 3)}), 107);
+    { Action a = PUB(1, 0); a.topic = std::string(100, 't'); R_(a, 101); } { Action a = PUB(0, 0, false, {ref::pnum(0x01, 1)}); a.payload = "\xC0\x20"; a.tag = tag++; a.expect_reject = true; a.expect_ec = 100; rej.push_back(a); }
+    R_(SUB({{"w/#", 1}}), 108); R_(SUB({{"$share/g/t", 1}}), 110); R_(SUB({{"p", 1}}, {ref::pnum(0x0B, 5)}), 109); R_(SUB({{std::string(100, 'f'), 1}}), 101); R_(SUB({{"a//\x01", 1}}), 104); R_(SUB({}), 104);
+    R_(UNSUB({std::string(100, 'u')}), 101); R_(UNSUB({"bad/#/x"}), 104); R_(UNSUB({}), 104);
+    return rej;
+}
+
 static std::vector<Scenario> publish_scenarios(uint32_t mon, int tier, uint32_t fam_extra = 0) {
     std::vector<Scenario> v; uint32_t fam = RECOVERABLE | SCHED | fam_extra | (tier ? F_BYTE : 0);
     ref::Props pp = {ref::pnum(0x01, 1), ref::pstr(0x03, "text/plain"), ref::ppair("tag", "x")};
@@ -704,6 +716,10 @@ std::vector<Scenario> scenarios_for(const std::string& prop, int tier) {
         uint32_t fam = F_WR | F_RDCUT | F_REORDER | F_DELAY | F_BCLOSE;
         { auto s = base("I-mixed-out-of-order", {RUN(), PUB(1, 1), SUB({{"a", 1}}), PUB(2, 2), UNSUB({"b"}), BARRIER(), PUB(1, 3), PUB(2, 4)}, fam, tier ? 2 : 1, M_C08); v.push_back(s); }
         { auto s = base("I-cancel-middle", {RUN(), slot(PUB(1, 1)), slot(PUB(1, 2)), slot(PUB(1, 3)), PUB(1, 4)}, fam | F_INJECT, tier ? 3 : 2, M_C08); s.inject = SIGNAL(2, 1); s.after_inject = {PUB(1, 5), PUB(2, 6)}; v.push_back(s); }
+        { // locally rejected requests took an identifier and gave it back exactly once: what is issued afterwards, several at a time, gets distinct identifiers
+          std::vector<Action> sc = {RUN(), WAIT_HS(1)}; for (auto& a : rejected_requests(600)) sc.push_back(a); size_t from = sc.size();
+          sc.push_back(chain(PUB(1, 1))); sc.push_back(chain(SUB({{"a", 1}}))); sc.push_back(chain(UNSUB({"b"}))); sc.push_back(chain(PUB(1, 2))); sc.push_back(PUB(1, 3));
+          Scenario s = base("I-rejected-then-concurrent", sc, fam, tier ? 2 : 1, M_C08 | M_C15); s.broker.connack_props = restrictive_caps(); s.faults_from_pos = from; s.expect_all_success = false; s.max_steps = 900; v.push_back(s); }
         { // all 65535 identifiers outstanding (slow broker, Receive Maximum 1 keeps them queued): only the 65536th request reports pid_overrun
           Scenario s = base("I-exhaustion", {RUN(), WAIT_HS(1)}, 0, 0, M_C08 | M_C15); s.broker.connack_props = {ref::pnum(0x21, 1)}; s.broker.hold_publish_acks = true; s.max_steps = 60; s.horizon_s = 2; s.expect_all_success = false;
           { Action m = A(Action::PUBMANY); m.qos = 1; m.tag = 1; m.n = 65534; s.script.push_back(m); }
